@@ -37,6 +37,7 @@ package revocation
 //@   property C10
 //@   requires event != nil && event.E != nil
 //@   ensures value: err == nil ==> code == 18 && bytes(result0) == mhsum(evbytes(event), 18)
+//@   ensures wellformed: err == nil ==> mhok(bytes(result0)) && mhcode(bytes(result0)) == 18
 //@   ensures whitelist: code != 18 ==> err != nil
 //@   ensures ok: code == 18 && mhsupported(18) ==> err == nil
 //@   modifies nothing
